@@ -80,7 +80,21 @@ SigSweep == LET ls == SetToSeq(SigLens) IN
     [q \in 1..Len(ls) |->
       LET s == [ver |-> 0, id |-> Id32(3), ts |-> Tss[3], ext |-> <<>>, sig |-> Sig(SigPairs[p], Fill(p, ls[q]))] IN
       [kind |-> "sigsweep", fn |-> OneFn, bytes |-> EncSct(s) \o <<7>>, want |-> <<p, ls[q]>>, extra |-> 1]]])
-ASSUME TLCSet(1, ManyCases \o SigSweep \o SingleCases \o ListCases \o BeyondEntryCases \o BeyondListCases \o CutCases \o InnerCases)
+(* lists and single entries followed by 2^16 - 1 .. 2^17 - 1 more bytes *)
+LongTailCases ==
+  Concat([t \in 1..Len(LongTails) |->
+    << Mk("list", ListFn, EncSctList(<<Scts[2], Scts[3]>>) \o [j \in 1..LongTails[t] |-> 171], <<2, 3>>, LongTails[t]),
+       Mk("single", OneFn, EncSct(Scts[5]) \o [j \in 1..LongTails[t] |-> 171], <<5>>, LongTails[t]),
+       Mk("list", ListFn, EncSctList(<<Scts[NS]>>) \o [j \in 1..LongTails[t] |-> 171], <<NS>>, LongTails[t]) >>])
+(* the (hash, signature) pair of an SCT's signature is two opaque numbers: hash 8 x every signature byte, a stride over *)
+(* the rest, with signature lengths 0, 64, 114 and 3                                                                    *)
+PairSweep ==
+  Concat([q \in 1..512 |->
+    LET x == IF q <= 256 THEN 2048 + (q - 1) ELSE ((q * 251) % 65536)
+        sct(n) == [ver |-> 0, id |-> Id32(1), ts |-> Tss[2], ext |-> <<>>, sig |-> Sig(<<x \div 256, x % 256>>, Fill(q, n))] IN
+    << [kind |-> "pair", fn |-> OneFn, bytes |-> EncSct(sct(<<0, 64, 114, 3>>[(q % 4) + 1])), want |-> <<x, <<0, 64, 114, 3>>[(q % 4) + 1]>>, extra |-> 0],
+       [kind |-> "pair", fn |-> ListFn, bytes |-> EncSctList(<<sct(3), Scts[2]>>), want |-> <<x, 3>>, extra |-> 0] >>])
+ASSUME TLCSet(1, LongTailCases \o PairSweep \o ManyCases \o SigSweep \o SingleCases \o ListCases \o BeyondEntryCases \o BeyondListCases \o CutCases \o InnerCases)
 Cases == TLCGet(1)
 N == Len(Cases)
 
@@ -111,13 +125,19 @@ SigLengthSweep ==
   LET c == Cases[i] IN
   c.kind = "sigsweep" => (cres.k = "ok" /\ cres.p = Len(c.bytes) - 1 /\ Len(cres.v.sig.data) = c.want[2]
                           /\ cres.v.sig.alg = Some([hash |-> SigPairs[c.want[1]][1], sign |-> SigPairs[c.want[1]][2]]))
+PairsAreOpaque ==
+  LET c == Cases[i] IN
+  c.kind = "pair" =>
+    LET s1 == IF c.fn = OneFn THEN cres.v ELSE cres.v[1] IN
+    /\ cres.k = "ok" /\ cres.p = Len(c.bytes) /\ (c.fn = ListFn => Len(cres.v) = 2)
+    /\ s1.sig.alg = Some([hash |-> c.want[1] \div 256, sign |-> c.want[1] % 256]) /\ Len(s1.sig.data) = c.want[2]
 ListBeyondInput == Cases[i].kind \in {"beyondlist", "cut", "inner"} => res.k # "ok"
 (* the 32-byte log id is a range of exactly 32 bytes *)
 IdIs32 == (Cases[i].kind = "single" /\ res.k = "ok") => res.v.id.l = 32
 
 Pin ==
   LET c == Cases[i] IN
-  IF c.kind \in {"list", "single", "innerpad", "many", "sigsweep"} THEN "full"
+  IF c.kind \in {"list", "single", "innerpad", "many", "sigsweep", "pair"} THEN "full"
   ELSE IF c.kind = "beyondentry" THEN "prefix_or_err"
   ELSE "novalue"
 EmitCase ==
